@@ -10,7 +10,9 @@ def run(tier, seed):
     rep = Report("C01", tier, seed, "proof", "./vf check C01 --tier " + tier)
     from contracts import leaf
 
-    t1 = run_cases(leaf.specs(("write", "read", "roundtrip", "reject"), tier))
+    from contracts import lemmas
+
+    t1 = run_cases(leaf.specs(("write", "read", "roundtrip", "reject"), tier) + lemmas.specs(tier))
     rep.add_case_results(t1, "T1")
     progs = programs_for(tier, seed)
     run_pipeline(rep, progs, ["C01"])
